@@ -20,7 +20,7 @@ func isXMLDecoderCall(cc *ssa.CallCommon, name string) bool {
 
 // R12.1
 var ruleSnifferMap = &core.Rule{ID: "R12.1", Min: 4,
-	Doc: "the sniffer map has exactly the keys text/plain, text/html, text/xml; the html entry reaches the HTML tokenizer, the xml entry reaches the XML decoder, the plain entry validates UTF-8 and reaches neither; html and xml fall back to the plain sniffer",
+	Doc: "the sniffer table (map literal, selection function or inline type tests) has exactly the keys text/plain, text/html, text/xml; the html entry reaches the HTML tokenizer, the xml entry reaches the XML decoder, the plain entry validates UTF-8 and reaches neither; html and xml fall back to the plain sniffer",
 	Run: func(c *core.Ctx, s *core.Sink) {
 		cm := getCharset(c)
 		want := map[string]bool{"text/plain": true, "text/html": true, "text/xml": true}
@@ -279,7 +279,7 @@ var ruleLowerCase = &core.Rule{ID: "R12.3", Min: 4,
 
 // R12.4 + R12.5 + R12.6
 var ruleHTMLOrder = &core.Rule{ID: "R12.4", Min: 3,
-	Doc: "HTML sniffer: the BOM lookup on the unmodified input comes first and its non-empty result is returned; the meta prescan runs only after it; a utf-16* label from a meta maps to utf-8; the pragma decision after the attribute loop equals the WHATWG table (charset attribute: accept; content attribute: accept iff http-equiv=content-type was seen; none: skip)",
+	Doc: "HTML sniffer: the BOM lookup on the unmodified input comes first and its non-empty result is returned; the meta prescan runs only after it; a utf-16* label from a meta maps to utf-8; the pragma decision after the attribute loop (inline, or in a per-tag helper whose accepted label the caller returns) equals the WHATWG table (charset attribute: accept; content attribute: accept iff http-equiv=content-type was seen; none: skip)",
 	Run: func(c *core.Ctx, s *core.Sink) {
 		cm := getCharset(c)
 		cm.needBOM()
